@@ -38,7 +38,7 @@ func (e *Engine) Assumptions() []string {
 		"loaders never return false"}
 }
 
-var names = []string{"a", "b", "c", "a.b"}
+var names = []string{"a", "b", "c", "a.b", "p%q"} // the last one: a name that must never be used as a format
 
 // behaviour of a loader
 type beh struct {
@@ -130,7 +130,7 @@ func body(name string, b *beh) string {
 const prelude = `
 LOG = {}
 CNT = 0
-UD = {a = newproxy(), b = newproxy(), c = newproxy(), ["a.b"] = newproxy()}
+UD = {a = newproxy(), b = newproxy(), c = newproxy(), ["a.b"] = newproxy(), ["p%q"] = newproxy()}
 function mk(n, k) CNT = CNT + 1; return {id = k .. ":" .. n .. "#" .. CNT} end
 function desc(v)
   local ty = type(v)
@@ -385,7 +385,7 @@ func (e *Engine) Run(t *core.Tape, cfg *core.Config, st *core.Stats) (viol *core
 	for i := 0; i < nops; i++ {
 		name := names[t.Choose(nn)]
 		fpath := filepath.Join(dir, fileKey(name)+".lua")
-		switch k := t.Weighted([]int{8, 5, 1, 1, 3, 2, 2, 1, 1, 1}); k {
+		switch k := t.Weighted([]int{8, 5, 1, 1, 3, 2, 2, 1, 1, 1, 1, 1, 1}); k {
 		case 0: // require
 			if !reduced && t.Choose(6) == 0 {
 				// require with an error injected at an arbitrary instruction while loaders run
@@ -660,6 +660,63 @@ func (e *Engine) Run(t *core.Tape, cfg *core.Config, st *core.Stats) (viol *core
 				return fail("host-module", "a module registered by the host must be reachable through require and through its global as the same object; got ok:rawequal:type = %s", res)
 			}
 			st.Probe("host_registered_module")
+		case 10: // a loader that fails under xpcall: the handler runs while the loader's frames are still on the stack
+			if reduced || ms.preload[name] != nil || strings.Contains(name, "%") {
+				continue
+			}
+			ver++
+			b := &beh{ver: ver, raise: true}
+			os.RemoveAll(fpath)
+			os.MkdirAll(filepath.Dir(fpath), 0o755)
+			if err := os.WriteFile(fpath, []byte("do\n"+body(name, b)+"end\n"), 0o600); err != nil {
+				panic(err)
+			}
+			ms.files[name] = b
+			ms.isDir[name] = false
+			res, v := runLua(fmt.Sprintf("package.loaded[%q] = nil; local ok, tb = xpcall(function() return require(%q) end, function(e) return debug.traceback(tostring(e), 1) end); LOG = {}; package.loaded[%q] = nil; return tostring(ok) .. \"\\1\" .. tostring(tb)", name, name, name))
+			if v != nil {
+				return v
+			}
+			log = append(log, fmt.Sprintf("write %s.lua: %s; xpcall(require, traceback) -> %s", fileKey(name), b, firstLine(res)))
+			if !strings.HasPrefix(res, "false\x01") || !strings.Contains(res, "LOADFAIL:"+name) {
+				return fail("wrong-result", "require of a module whose loader raises, under xpcall: got %q", res)
+			}
+			if !strings.Contains(res, fileKey(name)+".lua") || strings.Count(res, "\n") < 3 {
+				return fail("handler-after-unwinding", "require of a module whose loader raises, under xpcall with a traceback handler: the traceback does not show the loader's frames (%s.lua): the handler ran after the stack was unwound\n%s", fileKey(name), res)
+			}
+			ms.loaded[name] = ""
+			ms.poisoned[name] = false
+			st.Probe("loader_failure_under_xpcall")
+		case 11: // package.preload is replaced by a new table with the same entries: later registrations go there
+			if reduced {
+				continue
+			}
+			if _, v := runLua("local new = {}; for k, v in pairs(package.preload) do new[k] = v end; package.preload = new; return \"\""); v != nil {
+				return v
+			}
+			log = append(log, "package.preload = (a new table with the same entries)")
+			st.Probe("preload_table_replaced")
+		case 12: // a host module registered under a parent that inherits from the globals (module(..., package.seeall))
+			if reduced {
+				continue
+			}
+			lazySeq++
+			parent := fmt.Sprintf("hostparent%d", lazySeq)
+			if _, v := runLua(fmt.Sprintf("local f = loadstring([[module(%q, package.seeall)]]); f(); package.loaded[%q] = nil; return \"\"", parent, parent)); v != nil {
+				return v
+			}
+			hm := parent + "." + []string{"string", "table", "mk", "LOG"}[t.Choose(4)]
+			L.RegisterModule(hm, map[string]lua.LGFunction{"f": func(L *lua.LState) int { L.Push(lua.LNumber(7)); return 1 }})
+			leaf := hm[len(parent)+1:]
+			res, v := runLua(fmt.Sprintf("local ok, r = pcall(require, %q); return tostring(ok) .. \":\" .. type(r) .. \":\" .. tostring(rawequal(r, rawget(%s, %q))) .. \":\" .. tostring(rawequal(r, _G[%q])) .. \":\" .. tostring(type(r) == \"table\" and r.f and r.f()) .. \":\" .. tostring(type(_G[%q]) == \"table\" and rawget(_G[%q], \"f\"))", hm, parent, leaf, leaf, leaf, leaf))
+			if v != nil {
+				return v
+			}
+			log = append(log, fmt.Sprintf("module(%q, package.seeall); L.RegisterModule(%q); require -> %s", parent, hm, res))
+			if res != "true:table:true:false:7:nil" && res != "true:table:true:false:7:false" {
+				return fail("host-module", "a host module registered under a parent that inherits from the globals must be its own table inside the parent, not the global of the same leaf name; got ok:type:in-parent:is-the-global:f():global.f = %s", res)
+			}
+			st.Probe("host_module_under_seeall_parent")
 		case 9: // a storm of failing loads: the same broken module is unloaded and required again many times
 			if reduced {
 				continue
